@@ -7,6 +7,10 @@ residualNNLS / dispatch`), obtained by transporting lists to `Matrix (Fin m) (Fi
 Helper lemmas: Lemmas/C01Abs.lean, Lemmas/C01.lean.
 -/
 import GlotaranProofs.Lemmas.C01
+import GlotaranProofs.Lemmas.C01Steps
+import GlotaranProofs.Lemmas.C01Bridge
+import GlotaranProofs.Lemmas.C01Real
+import GlotaranProofs.Lemmas.C01Provider
 import Mathlib.Data.Real.Basic
 import Mathlib.LinearAlgebra.Matrix.Notation
 namespace Glotaran.C01
@@ -240,7 +244,7 @@ theorem nnls_optimal_partial (nnls : Mat → Vec → Option Vec) (a : Mat) (y x 
   have hk' := isKKT_unscale a y x h hk
   refine ⟨(_, residual a y _), ?_, rfl, hk', isKKT_nonneg a y _ hk',
     fun c' hc' => isKKT_optimal a y _ h hk' c' hc'⟩
-  simp [residualNNLS, hs, residual]
+  simp [residualNNLS, hs, LinAlg.residual]
 
 /-- non-vacuity: data of magnitude 1e-20 (the repaired defect): the normalised problem has the KKT
     point (1/3, 2/3), scaled back it is the KKT point (1e-20, 2e-20) of the original problem -/
@@ -306,7 +310,7 @@ theorem cert_near_optimal (a : Mat) (y c r c' : Vec) (h : WF a y)
 /-- the certificate's first number is zero exactly when the reported residual is `y − A c` -/
 theorem cert_defect_zero_iff (a : Mat) (y c r : Vec) (h : WF a y) (hr : r.length = a.length) :
     (cert a y c r).defectSq = 0 ↔ r = residual a y c := by
-  have hl : (residual a y c).length = a.length := by simp [residual, h.ylen]
+  have hl : (residual a y c).length = a.length := by simp [LinAlg.residual, h.ylen]
   have hd : (cert a y c r).defectSq = sumSq (vsub r (residual a y c)) := rfl
   rw [hd, sumSq_eq _ a.length (by simp [hr, hl]), Abs.nsq_eq_zero, toV_vsub _ _ _ hr hl, sub_eq_zero]
   constructor
@@ -378,6 +382,84 @@ theorem dispatched_kernel_optimal (key : String) (k : Kernel)
     have h6 := dispatch_table.1
     rw [hk] at h6
     cases h6
+
+/-! ### the kernels as the source text says them (programs regenerated on every run) -/
+section Generated
+open Steps
+set_option linter.unusedSimpArgs false
+
+/-- **The call sequence of `residual_variable_projection`, as regenerated from its source, computes
+    the hand-written model `residualVP`** (the theorems above are about `residualVP`): which LAPACK
+    routine is called on which operands with which `side` / `trans` flags, which block of `temp` is
+    zeroed, which slice of `clp` is returned and in which order.  `hshape`: `dgeqrf` returns an array
+    with as many columns as its argument (the order of `dtrtrs`'s system is read off `qr`). -/
+theorem generated_vp_eq_model (dgeqrf : Mat → Mat × Vec) (a : Mat) (y : Vec)
+    (hshape : ncols (dgeqrf a).1 = ncols a) :
+    runVP Generated.vpProgram dgeqrf a y =
+      .ok [.vec (residualVP dgeqrf a y).1, .vec (residualVP dgeqrf a y).2] := by
+  unfold residualVP
+  by_cases hn : ncols a = 0
+  · simp [runVP, run, Generated.vpProgram, exec, eval, evalSize, evalAll, lookup, Steps.bind, binop, amaxVec, hn, zeros]
+  · simp [runVP, run, Generated.vpProgram, exec, eval, evalSize, evalAll, lookup, Steps.bind, binop, amaxVec, hn, hshape,
+      zeroRange_zero]
+
+/-- **… and the statements of `residual_nnls`, as regenerated from its source, compute `residualNNLS`**:
+    the normalisation of the data and of the columns (`axis` arguments included), what the solver is
+    called on, the factor the clp are scaled back by, the residual from the original data and matrix;
+    a solver that raises makes the function raise. -/
+theorem generated_nnls_eq_model (nnls : Mat → Vec → Option Vec) (a : Mat) (y : Vec) :
+    runNNLS Generated.nnlsProgram nnls a y =
+      match residualNNLS nnls a y with
+      | some out => .ok [.vec out.1, .vec out.2]
+      | none => .raised := by
+  unfold residualNNLS
+  simp [runNNLS, run, Generated.nnlsProgram, exec, eval, evalSize, evalAll, lookup, Steps.bind, binop, amaxVec,
+    sequence_map_some, ncols_map_map, col_map_absQ, foldl_max_abs, columnScales, scaleOf, scaleColumns, vsub,
+    List.zipWith_map_right, Function.comp_def]
+  cases nnls _ _ <;> simp
+
+/-- **Optimality of what the source says now** (variable projection): with an exact factorisation of
+    full rank the regenerated program returns a pair `(clp, residual)` with `residual = data − matrix·clp`
+    of minimal norm. -/
+theorem generated_vp_optimal (dgeqrf : Mat → Mat × Vec) (a : Mat) (y : Vec)
+    (hq : isQRof (dgeqrf a).1 (dgeqrf a).2 a = true)
+    (hd : diagNonzero (dgeqrf a).1 (ncols a) = true) (hy : y.length = a.length) :
+    ∃ c r, runVP Generated.vpProgram dgeqrf a y = .ok [.vec c, .vec r] ∧ r = residual a y c ∧
+      isNormalSol a y c = true ∧ ∀ c', sumSq r ≤ sumSq (residual a y c') := by
+  by_cases hn : ncols a = 0
+  · have hm := vp_main dgeqrf a y hq hd hy
+    refine ⟨(residualVP dgeqrf a y).1, (residualVP dgeqrf a y).2, ?_, hm.1, hm.2,
+      fun c' => vp_optimal dgeqrf a y hq hd hy c'⟩
+    unfold residualVP
+    simp [runVP, run, Generated.vpProgram, exec, eval, evalSize, evalAll, lookup, Steps.bind, hn, zeros]
+  · have hm := vp_main dgeqrf a y hq hd hy
+    exact ⟨_, _, generated_vp_eq_model dgeqrf a y (ncols_qr_of_isQRof _ _ a hq hn), hm.1, hm.2,
+      fun c' => vp_optimal dgeqrf a y hq hd hy c'⟩
+
+/-- **Optimality of what the source says now** (NNLS, `_partial` as `nnls_optimal_partial`: the
+    external solver is assumed to return a KKT point of the normalised problem it is given). -/
+theorem generated_nnls_optimal_partial (nnls : Mat → Vec → Option Vec) (a : Mat) (y x : Vec) (h : WF a y)
+    (hs : nnls (scaleColumns a (columnScales a)) (y.map (· / scaleOf y)) = some x)
+    (hk : isKKT (scaleColumns a (columnScales a)) (y.map (· / scaleOf y)) x = true) :
+    ∃ c r, runNNLS Generated.nnlsProgram nnls a y = .ok [.vec c, .vec r] ∧ r = residual a y c ∧
+      isKKT a y c = true ∧ (∀ z ∈ c, 0 ≤ z) ∧
+      ∀ c' : Vec, (∀ z ∈ c', 0 ≤ z) → sumSq r ≤ sumSq (residual a y c') := by
+  obtain ⟨out, h1, h2, h3, h4, h5⟩ := nnls_optimal_partial nnls a y x h hs hk
+  refine ⟨out.1, out.2, ?_, h2, h3, h4, h5⟩
+  rw [generated_nnls_eq_model, h1]
+
+/-- non-vacuity: the regenerated programs run on the 4×2 example of `vp_optimal` and on the tiny-data
+    example of `nnls_optimal_partial` -/
+example :
+    runVP Generated.vpProgram (fun _ => ([[2, 1], [1, 3], [1, 1], [1, 0]], [1/2, 1]))
+      [[1, 2], [-1, 1], [-1, -2], [-1, 1]] [1, 2, 3, 4] = .ok [.vec [-7/3, 2/3], .vec [2, -1, 2, 1]] ∧
+    runNNLS Generated.nnlsProgram nnlsExact [[1, 0], [0, 1], [1, 1]]
+      [1/100000000000000000000, 2/100000000000000000000, 3/100000000000000000000] =
+      .ok [.vec [1/100000000000000000000, 2/100000000000000000000], .vec [0, 0, 0]] ∧
+    runNNLS Generated.nnlsProgram (fun _ _ => none) nnlsWitnessA nnlsWitnessY = .raised := by
+  decide +kernel
+
+end Generated
 
 /-! ### full column rank, uniqueness, independence of the factorisation -/
 
@@ -479,5 +561,281 @@ example : diagNonzero [[1, 2], [0, 0], [0, 0]] 2 = false ∧
     residualVP (fun _ => ([[1, 2], [0, 0], [0, 0]], [0, 0])) [[1, 2], [0, 0], [0, 0]] [3, 4, 5] =
       ([3, 4], [0, 0, 5]) := by
   decide +kernel
+
+/-! ### non-vacuity in general: every real matrix of full column rank has an admissible factorisation
+
+`vp_optimal` assumes that LAPACK returned an exact compact Householder factorisation with a non-zero
+diagonal (`isQRof`, `diagNonzero`).  Over ℚ such a factorisation exists only when the column norms
+that occur are rational squares; over ℝ it always exists.  `Abs.IsCompactQR` / `Abs.DiagNonzero`
+(Lemmas/C01QR.lean) are the two Boolean tests as propositions over any field, `Abs.dgeqr2` is LAPACK's
+`dgeqr2` (column by column, reflector from `Real.sqrt`, `τ = 0` for a zero sub-column) as a
+noncomputable definition. -/
+section QR
+open Abs
+variable {m n : ℕ}
+
+/-- **The hypotheses of the variable-projection theorems are the instance at `K = ℚ` of the
+    field-generic predicates**: what `isQRof` and `diagNonzero` accept is an `IsCompactQR` with
+    `DiagNonzero` of the matrix (transported to Mathlib's `Matrix`). -/
+theorem isQRof_is_compact_qr (qr : Mat) (tau : Vec) (a : Mat) (hq : isQRof qr tau a = true)
+    (hd : diagNonzero qr (ncols a) = true) :
+    IsCompactQR (toM a.length (ncols a) a) ((reflectors qr tau).map (toH a.length))
+      (toM a.length (ncols a) (rFull qr (ncols a))) ∧
+    DiagNonzero (toM a.length (ncols a) (rFull qr (ncols a))) :=
+  compactQR_of_isQRof qr tau a hq hd
+
+/-- **One column of `dgeqr2` (LAPACK's `dlarfg`)**: for every real vector `x` and position `k` the
+    reflector `householderVec x k` has the compact form (zeros above `k`, 1 on it), is orthogonal,
+    annihilates `x` below `k`, leaves it alone above `k`, and produces a non-zero pivot exactly when
+    `x` is not zero from `k` on. -/
+theorem householder_step_spec (x : Fin m → ℝ) (k : Fin m) :
+    (∀ i : Fin m, (i : ℕ) < k → (householderVec x k).1 i = 0) ∧
+    (householderVec x k).1 k = 1 ∧
+    HOK (householderVec x k) ∧
+    (∀ i : Fin m, (k : ℕ) < i → (Hm (householderVec x k) *ᵥ x) i = 0) ∧
+    (∀ i : Fin m, (i : ℕ) < k → (Hm (householderVec x k) *ᵥ x) i = x i) ∧
+    ((Hm (householderVec x k) *ᵥ x) k ≠ 0 ↔ ∃ i : Fin m, (k : ℕ) ≤ i ∧ x i ≠ 0) :=
+  Abs.householder_step_spec x k
+
+/-- the rational instance `x = (3, 4)`: `v = (1, 1/2)`, `τ = 8/5` (and `β = −5`) -/
+example : householderVec (![3, 4] : Fin 2 → ℝ) 0 = (![1, 1/2], 8/5) := example_householderVec
+
+/-- **Every real `m × n` matrix with `n ≤ m` has an exact compact Householder factorisation**
+    (no rank assumption), namely the one `dgeqr2` computes. -/
+theorem exists_compact_qr (A : Matrix (Fin m) (Fin n) ℝ) (hnm : n ≤ m) :
+    IsCompactQR A (dgeqr2 A) (QTm (dgeqr2 A) * A) := by
+  obtain ⟨h1, h2, h3, h4⟩ := dgeqr2Aux_spec A hnm n (le_refl n)
+  exact ⟨h1, h2, h3, rfl, fun i j hji => h4 i j j.2 hji⟩
+
+/-- **The triangle of any compact factorisation has a non-zero diagonal iff the matrix has full
+    column rank** (any field). -/
+theorem diagNonzero_iff_full_rank {K : Type*} [Field K] (A : Matrix (Fin m) (Fin n) K)
+    (hs : List ((Fin m → K) × K)) (B : Matrix (Fin m) (Fin n) K) (h : IsCompactQR A hs B) (hnm : n ≤ m) :
+    DiagNonzero B ↔ (∀ d : Fin n → K, A *ᵥ d = 0 → d = 0) :=
+  Abs.diagNonzero_iff_full_rank A hs B h hnm
+
+/-- **Every real matrix of full column rank has an admissible factorisation** — the hypotheses of
+    `vp_optimal` are satisfiable for every input the property quantifies over, whenever LAPACK is exact. -/
+theorem exists_admissible_qr (A : Matrix (Fin m) (Fin n) ℝ)
+    (hrank : ∀ d : Fin n → ℝ, A *ᵥ d = 0 → d = 0) :
+    ∃ hs B, IsCompactQR A hs B ∧ DiagNonzero B :=
+  Abs.exists_admissible_qr A hrank
+
+/-- **… and a rank-deficient matrix has none** (so `diagNonzero` fails exactly outside the property). -/
+theorem no_admissible_qr_of_rank_deficient {K : Type*} [Field K] (A : Matrix (Fin m) (Fin n) K)
+    (hnm : n ≤ m) (hdef : ∃ d : Fin n → K, d ≠ 0 ∧ A *ᵥ d = 0) :
+    ¬ ∃ hs B, IsCompactQR A hs B ∧ DiagNonzero B :=
+  Abs.no_admissible_qr_of_rank_deficient A hnm hdef
+
+/-- **With any compact factorisation the steps of `residual_variable_projection` give the
+    least-squares minimiser** (any ordered field; matrix form of `vp_residual_eq`, `vp_orthogonal`,
+    `vp_optimal`): `c` solves the triangular system (`dtrtrs`), `r = Q·(Qᵀy with its first n entries
+    zeroed)`; then `r = y − A c`, `Aᵀ r = 0`, and `‖r‖` is minimal. -/
+theorem vp_optimal_of_compact_qr {K : Type*} [Field K] [LinearOrder K] [IsStrictOrderedRing K]
+    (A : Matrix (Fin m) (Fin n) K) (hs : List ((Fin m → K) × K)) (B : Matrix (Fin m) (Fin n) K)
+    (h : IsCompactQR A hs B) (y : Fin m → K) (c : Fin n → K)
+    (hc : ∀ i : Fin m, (i : ℕ) < n → (B *ᵥ c) i = (QTm hs *ᵥ y) i) :
+    let r := Qm hs *ᵥ (fun i : Fin m => if (i : ℕ) < n then 0 else (QTm hs *ᵥ y) i)
+    r = y - A *ᵥ c ∧ Aᵀ *ᵥ r = 0 ∧ ∀ c' : Fin n → K, r ⬝ᵥ r ≤ (y - A *ᵥ c') ⬝ᵥ (y - A *ᵥ c') :=
+  Abs.vp_optimal_of_compact_qr A hs B h y c hc
+
+/-- **Variable projection is optimal for every real least-squares problem of full column rank**:
+    the factorisation exists, the triangular system is solvable, and the resulting residual is
+    `y − A c`, orthogonal to every column, of minimal norm. -/
+theorem vp_optimal_real (A : Matrix (Fin m) (Fin n) ℝ)
+    (hrank : ∀ d : Fin n → ℝ, A *ᵥ d = 0 → d = 0) (y : Fin m → ℝ) :
+    ∃ (hs : List ((Fin m → ℝ) × ℝ)) (B : Matrix (Fin m) (Fin n) ℝ) (c : Fin n → ℝ),
+      IsCompactQR A hs B ∧ DiagNonzero B ∧
+      (∀ i : Fin m, (i : ℕ) < n → (B *ᵥ c) i = (QTm hs *ᵥ y) i) ∧
+      let r := Qm hs *ᵥ (fun i : Fin m => if (i : ℕ) < n then 0 else (QTm hs *ᵥ y) i)
+      r = y - A *ᵥ c ∧ Aᵀ *ᵥ r = 0 ∧
+        ∀ c' : Fin n → ℝ, r ⬝ᵥ r ≤ (y - A *ᵥ c') ⬝ᵥ (y - A *ᵥ c') :=
+  Abs.vp_optimal_real A hrank y
+
+/-- non-vacuity: a rational instance of `IsCompactQR` / `DiagNonzero` (`A = (3, 4)ᵀ`), and the 4×2
+    example of `vp_optimal` satisfies the Boolean tests, hence the predicates -/
+example : IsCompactQR (!![3; 4] : Matrix (Fin 2) (Fin 1) ℚ) [(![1, 1/2], 8/5)] !![-5; 0] ∧
+    DiagNonzero (!![-5; 0] : Matrix (Fin 2) (Fin 1) ℚ) := ⟨example_isCompactQR, example_diagNonzero⟩
+
+/-- **A rational matrix (every matrix of doubles is one) of full column rank has full column rank over ℝ**,
+    hence an admissible real factorisation. -/
+theorem exists_admissible_qr_of_fullRank (a : Mat) (hrows : ∀ r ∈ a, r.length = ncols a) (hr : FullRank a) :
+    ∃ hs B, IsCompactQR (castM (toM a.length (ncols a) a)) hs B ∧ DiagNonzero B :=
+  Abs.exists_admissible_qr _ (fullRank_real_of_rat _ (fullRank_abs a hrows hr))
+
+/-- **Whenever LAPACK is exact, variable projection returns the exact reference the harness compares
+    with**: for a rational matrix of full column rank and ANY exact real compact Householder
+    factorisation of it, the triangular solve gives the real image of `lsExact`'s clp and the
+    back-transformed vector is the real image of `data − matrix·clp`. -/
+theorem vp_real_eq_lsExact (a : Mat) (y c : Vec) (h : WF a y) (hr : FullRank a) (hc : lsExact a y = some c)
+    (hs : List ((Fin a.length → ℝ) × ℝ)) (B : Matrix (Fin a.length) (Fin (ncols a)) ℝ)
+    (hq : IsCompactQR (castM (toM a.length (ncols a) a)) hs B) (c' : Fin (ncols a) → ℝ)
+    (hc' : ∀ i : Fin a.length, (i : ℕ) < ncols a → (B *ᵥ c') i = (QTm hs *ᵥ castV (toV a.length y)) i) :
+    c' = castV (toV (ncols a) c) ∧
+    Qm hs *ᵥ (fun i : Fin a.length => if (i : ℕ) < ncols a then 0 else (QTm hs *ᵥ castV (toV a.length y)) i) =
+      castV (toV a.length (LinAlg.residual a y c)) := by
+  have hn := lsExact_isNormalSol a y c hc
+  simp only [isNormalSol, Bool.and_eq_true, beq_iff_eq] at hn
+  have hg : Abs.grad (toM a.length (ncols a) a) (toV a.length y) (toV (ncols a) c) = 0 := by
+    rw [← toV_gradient a y c h]; exact toV_eq_zero_of_all _ _ hn.2
+  have := vp_real_eq_cast_normal (toM a.length (ncols a) a) (toV a.length y) (toV (ncols a) c)
+    (fullRank_abs a h.rows hr) hg hs B hq c' hc'
+  rw [toV_residual a y c h]
+  exact this
+
+/-- non-vacuity: `A = (3, 4)ᵀ`, `y = (1, 2)` over ℚ has full column rank and `lsExact` solves it -/
+example : WF [[3], [4]] [1, 2] ∧ lsExact [[3], [4]] [1, 2] = some [11/25] := by
+  refine ⟨⟨by decide, by decide⟩, by decide +kernel⟩
+
+end QR
+
+/-! ### EstimationProvider glue (C01Provider) -/
+/- What `EstimationProviderUnlinked.calculate_estimation` / `EstimationProviderLinked.estimate` do around the kernel at
+   one global index (`GlotaranModel/C01Provider.lean`): the columns of the labels a constraint removes are dropped
+   (`reduceColumns`), matrix and data are weighted (`weightMatrix`, `weightData`), the kernel of the group's key — or of
+   the regenerated default — runs on that problem, and `retrieveClps` reports the reduced clp under the full label list.
+   Proofs: Lemmas/C01Provider.lean (namespace `Provider`). -/
+
+/-- `retrieve_clps` returns one entry per label of the unreduced matrix -/
+theorem retrieve_length (labels reduced : List String) (c : Vec) :
+    (retrieveClps true labels reduced c).length = labels.length :=
+  Provider.retrieve_length labels reduced c
+
+/-- **The i-th reduced clp is reported under the i-th reduced label** (for distinct reduced labels that are labels) -/
+theorem retrieve_kept (labels reduced : List String) (c : Vec)
+    (hnd : reduced.Nodup) (hsub : ∀ l ∈ reduced, l ∈ labels) (hlen : c.length = reduced.length)
+    (i : Nat) (hi : i < reduced.length) :
+    clpOf labels (retrieveClps true labels reduced c) (reduced.getD i "") = c.getD i 0 :=
+  Provider.retrieve_kept labels reduced c hnd hsub hlen i hi
+
+/-- **A label that was removed from the matrix reports the clp 0** -/
+theorem retrieve_removed (labels reduced : List String) (c : Vec) (l : String)
+    (hl : l ∈ labels) (hr : l ∉ reduced) :
+    clpOf labels (retrieveClps true labels reduced c) l = 0 :=
+  Provider.retrieve_removed labels reduced c l hl hr
+
+/-- the early exit of `retrieve_clps` (model without constraints and relations): the kernel's clp as they are -/
+theorem retrieve_unconstrained (labels reduced : List String) (c : Vec) :
+    retrieveClps false labels reduced c = c :=
+  Provider.retrieve_unconstrained labels reduced c
+
+example : clpOf ["a", "b", "c"] (retrieveClps true ["a", "b", "c"] ["c", "a"] [5, 7]) "c" = 5 ∧
+    clpOf ["a", "b", "c"] (retrieveClps true ["a", "b", "c"] ["c", "a"] [5, 7]) "a" = 7 ∧
+    clpOf ["a", "b", "c"] (retrieveClps true ["a", "b", "c"] ["c", "a"] [5, 7]) "b" = 0 := by
+  decide +kernel
+
+/-- **The labels removed by the constraint reduction are exactly those listed** -/
+theorem reduce_labels (labels removed : List String) (matrix : Mat) (l : String) :
+    l ∈ (reduceColumns labels removed matrix).1 ↔ l ∈ labels ∧ l ∉ removed :=
+  Provider.reduce_labels labels removed matrix l
+
+/-- **Labels and columns stay paired**: the column under a kept label in the reduced matrix is the column under the
+    same label in the full matrix -/
+theorem reduce_labels_columns (labels removed : List String) (matrix : Mat)
+    (hrows : ∀ r ∈ matrix, r.length = labels.length) (l : String) (hl : l ∈ labels) (hk : l ∉ removed) :
+    col (reduceColumns labels removed matrix).2 ((reduceColumns labels removed matrix).1.idxOf l) =
+      col matrix (labels.idxOf l) :=
+  Provider.reduce_labels_columns labels removed matrix hrows l hl hk
+
+example : reduceColumns ["a", "b", "c"] ["b"] [[1, 2, 3], [4, 5, 6]] = (["a", "c"], [[1, 3], [4, 6]]) := by
+  decide +kernel
+
+/-- **The property for the full labelled clp vector of one global index.**  Given an exact factorisation / a KKT point
+    for the matrix actually handed to the kernel (constraint-reduced, weighted — the hypotheses of
+    `dispatched_kernel_optimal` for that matrix), the estimation returns a clp vector under the full labels and a
+    residual such that: the residual is `w∘data − (w∘matrix)·clp` for the FULL matrix (removed columns contribute 0),
+    removed labels report 0, and the clp minimise `‖w∘data − (w∘matrix)·clp'‖` over all label vectors `clp'` that are 0
+    under the removed labels (variable projection), resp. over the non-negative ones, being non-negative themselves
+    (NNLS). -/
+theorem estimate_optimal (option : Option String) (k : Kernel)
+    (hk : dispatch Generated.residualFunctions (groupKey option) = .ok k)
+    (hasItems : Bool) (labels removed : List String) (w : Option Vec)
+    (dgeqrf : Mat → Mat × Vec) (nnls : Mat → Vec → Option Vec) (matrix : Mat) (data x : Vec)
+    (hnd : labels.Nodup) (hrows : ∀ r ∈ matrix, r.length = labels.length)
+    (hflag : hasItems = false → removed = [])
+    (hne : (preparedMatrix labels removed w matrix).2 ≠ [])
+    (hy : (weightData w data).length = (preparedMatrix labels removed w matrix).2.length)
+    (hq : isQRof (dgeqrf (preparedMatrix labels removed w matrix).2).1 (dgeqrf (preparedMatrix labels removed w matrix).2).2
+      (preparedMatrix labels removed w matrix).2 = true)
+    (hd : diagNonzero (dgeqrf (preparedMatrix labels removed w matrix).2).1
+      (ncols (preparedMatrix labels removed w matrix).2) = true)
+    (hs : nnls (scaleColumns (preparedMatrix labels removed w matrix).2 (columnScales (preparedMatrix labels removed w matrix).2))
+      ((weightData w data).map (· / scaleOf (weightData w data))) = some x)
+    (hkkt : isKKT (scaleColumns (preparedMatrix labels removed w matrix).2 (columnScales (preparedMatrix labels removed w matrix).2))
+      ((weightData w data).map (· / scaleOf (weightData w data))) x = true) :
+    ∃ clp res, estimateAt option hasItems labels removed w dgeqrf nnls matrix data = .ok clp res ∧
+      res = residual (weightMatrix w matrix) (weightData w data) clp ∧
+      (hasItems = true → clp.length = labels.length) ∧
+      (∀ l ∈ labels, l ∈ removed → clpOf labels clp l = 0) ∧
+      (groupKey option = "variable_projection" → ∀ c' : Vec, c'.length = labels.length →
+        (∀ l ∈ labels, l ∈ removed → clpOf labels c' l = 0) →
+          sumSq res ≤ sumSq (residual (weightMatrix w matrix) (weightData w data) c')) ∧
+      (groupKey option = "non_negative_least_squares" → (∀ z ∈ clp, 0 ≤ z) ∧
+        ∀ c' : Vec, c'.length = labels.length → (∀ z ∈ c', 0 ≤ z) →
+          (∀ l ∈ labels, l ∈ removed → clpOf labels c' l = 0) →
+            sumSq res ≤ sumSq (residual (weightMatrix w matrix) (weightData w data) c')) := by
+  have hnc := Provider.prepared_ncols labels removed w matrix hrows hne
+  have hwf : WF (preparedMatrix labels removed w matrix).2 (weightData w data) :=
+    ⟨fun r hr => by rw [hnc]; exact Provider.prepared_rows labels removed w matrix hrows r hr, hy⟩
+  obtain ⟨out, h1, h2, h3, h4⟩ :=
+    dispatched_kernel_optimal (groupKey option) k hk dgeqrf nnls _ _ x hwf hq hd hs hkkt
+  have hlen : out.1.length = (preparedMatrix labels removed w matrix).1.length := by
+    rw [← hnc]
+    cases k with
+    | vp =>
+      simp only [calculateResidual, Option.some.injEq] at h1
+      have := (vp_orthogonal dgeqrf _ _ hq hd hy).2
+      rw [h1] at this
+      simp only [isNormalSol, Bool.and_eq_true, beq_iff_eq] at this
+      exact this.1
+    | nnls =>
+      obtain ⟨out', g1, _, g3, _⟩ := nnls_optimal_partial nnls _ _ x hwf hs hkkt
+      simp only [calculateResidual] at h1
+      rw [h1] at g1
+      cases g1
+      simp only [isKKT, Bool.and_eq_true, beq_iff_eq] at g3
+      exact g3.1.1.1
+  exact Provider.estimate_optimal option k hk hasItems labels removed w dgeqrf nnls matrix data hnd hflag
+    ⟨out, h1, h2, hlen, h3, h4⟩
+
+/-- non-vacuity of the hypotheses of `estimate_optimal`: labels `a`, `b` with `b` removed, weights (2, 1, 2): the kernel
+    sees the 3×1 matrix (2, 1, 2)ᵀ, which has the exact Householder factorisation `r₁₁ = −3`, `v = (1, 1/5, 2/5)`,
+    `τ = 5/3`; the normalised NNLS problem has the KKT point 1 -/
+example :
+    (preparedMatrix ["a", "b"] ["b"] (some [2, 1, 2]) [[1, 5], [1, 6], [1, 7]]).2 = [[2], [1], [2]] ∧
+    weightData (some [2, 1, 2]) [3, 3, 3] = [6, 3, 6] ∧
+    isQRof [[-3], [1/5], [2/5]] [5/3] [[2], [1], [2]] = true ∧ diagNonzero [[-3], [1/5], [2/5]] (ncols [[2], [1], [2]]) = true ∧
+    nnlsExact (scaleColumns [[2], [1], [2]] (columnScales [[2], [1], [2]])) (([6, 3, 6] : Vec).map (· / scaleOf [6, 3, 6])) = some [1] ∧
+    isKKT (scaleColumns [[2], [1], [2]] (columnScales [[2], [1], [2]])) (([6, 3, 6] : Vec).map (· / scaleOf [6, 3, 6])) [1] = true ∧
+    estimateAt none true ["a", "b"] ["b"] (some [2, 1, 2]) (fun _ => ([[-3], [1/5], [2/5]], [5/3])) nnlsExact
+      [[1, 5], [1, 6], [1, 7]] [3, 3, 3] = .ok [3, 0] [0, 0, 0] := by
+  decide +kernel
+
+/-- non-vacuity: three labels, the middle one removed by a constraint, weights (2, 1, 1): the kernel sees the 3×2 matrix
+    of the labels `a`, `c`; the clp come back as `(a, 0, c)` -/
+example : preparedMatrix ["a", "b", "c"] ["b"] (some [2, 1, 1]) [[1, 5, 0], [0, 7, 1], [1, 9, 1]] =
+      (["a", "c"], [[2, 0], [0, 1], [1, 1]]) ∧
+    estimateAt (some "non_negative_least_squares") true ["a", "b", "c"] ["b"] (some [2, 1, 1])
+      (fun _ => ([], [])) nnlsExact [[1, 5, 0], [0, 7, 1], [1, 9, 1]] [1, 2, 3] = .ok [1, 0, 2] [0, 0, 0] := by
+  decide +kernel
+
+/-- **A group that does not set `residual_function` uses the default of `DatasetGroupModel` (regenerated from the
+    source), which dispatches to variable projection**: the estimation is the one of the key
+    `"variable_projection"`, i.e. `residualVP` on the prepared problem -/
+theorem default_key_dispatch (hasItems : Bool) (labels removed : List String) (w : Option Vec)
+    (dgeqrf : Mat → Mat × Vec) (nnls : Mat → Vec → Option Vec) (matrix : Mat) (data : Vec) :
+    groupKey none = Generated.defaultResidualFunction ∧
+    dispatch Generated.residualFunctions (groupKey none) = .ok .vp ∧
+    estimateAt none hasItems labels removed w dgeqrf nnls matrix data =
+      estimateAt (some "variable_projection") hasItems labels removed w dgeqrf nnls matrix data ∧
+    estimateAt none hasItems labels removed w dgeqrf nnls matrix data =
+      .ok (retrieveClps hasItems labels (preparedMatrix labels removed w matrix).1
+             (residualVP dgeqrf (preparedMatrix labels removed w matrix).2 (weightData w data)).1)
+          (residualVP dgeqrf (preparedMatrix labels removed w matrix).2 (weightData w data)).2 :=
+  Provider.default_key_dispatch hasItems labels removed w dgeqrf nnls matrix data
+
+example : groupKey none = "variable_projection" ∧ groupKey (some "non_negative_least_squares") = "non_negative_least_squares" := by
+  decide
+/-! ### end of the EstimationProvider glue -/
 
 end Glotaran.C01
